@@ -45,10 +45,10 @@ type Style struct {
 
 // Doc is an abstract document.
 type Doc struct {
-	Fmt  string  `json:"fmt"`
-	Body []Block `json:"body"`
-	Hdr  int     `json:"hdr"`
-	Ftr  int     `json:"ftr"`
+	Fmt   string  `json:"fmt"`
+	Body  []Block `json:"body"`
+	Hdr   int     `json:"hdr"`
+	Ftr   int     `json:"ftr"`
 	Sheet []Style `json:"sheet"`
 }
 
